@@ -3,6 +3,7 @@ package props
 import (
 	"bytes"
 	"fmt"
+	"os"
 	"sort"
 	"strconv"
 	"strings"
@@ -189,6 +190,26 @@ func C15(r *core.Run) {
 		}
 		r.Count("timing_cases", 1)
 	}
+	// several specifications in one string, fractional and flagged ones first: each counts in
+	// full (lower bound only: a sleep is never shorter than specified)
+	for _, c := range []struct {
+		s  string
+		ms float64
+	}{
+		{"a$<0.5>b$<40>c", 40.5}, {"a$<1.5*>b$<30/>c$<20>", 51.5}, {"$<2.5/>x$<0.5>y$<25*>", 28}, {"$<30>$<0.1>$<30>", 60.1}, {"p$<10.0>q$<25>", 35},
+	} {
+		for _, tp := range []*terminfo.Terminfo{padTI, CopyTI(Pristine("vt100")), CopyTI(Pristine("linux"))} {
+			if tp.PadChar == "" {
+				continue
+			}
+			t0 := time.Now()
+			tputs(tp, c.s)
+			if el := time.Since(t0); el < time.Duration(c.ms*float64(time.Millisecond)) {
+				r.Violate("padding:delay-too-short:several-specs", fmt.Sprintf("TPuts(%q) on %q (pad character) returned after %v, the specifications add up to %.1fms", c.s, tp.Name, el, c.ms), nil)
+			}
+			r.Count("timing_cases", 1)
+		}
+	}
 	{
 		// every well-formed spelling of a 20 s delay, on descriptions without a pad
 		// character (an empty one and the registered xterm): none may sleep (10 s bound)
@@ -339,27 +360,40 @@ func C15(r *core.Run) {
 		}
 	}
 	nl := int64(0)
-	for _, nm := range names {
-		got, err := terminfo.LookupTerminfo(nm)
-		want := Pristine(nm)
-		if err != nil {
-			r.Violate("lookup-sequence:lost", fmt.Sprintf("LookupTerminfo(%q) fails after the derived names were looked up: %v", nm, err), nil)
-			continue
+	// the palette strings of an entry do not depend on the direct-colour switches either
+	envs := [][2]string{{"", ""}, {"COLORTERM", "truecolor"}, {"TCELL_TRUECOLOR", "1"}, {"COLORTERM", "24bit"}}
+	defer func() { os.Unsetenv("COLORTERM"); os.Unsetenv("TCELL_TRUECOLOR") }()
+	for ei, env := range envs {
+		os.Unsetenv("COLORTERM")
+		os.Unsetenv("TCELL_TRUECOLOR")
+		if env[0] != "" {
+			os.Setenv(env[0], env[1])
 		}
-		bad := false
-		for fg := -1; fg <= 300 && !bad; fg += 3 {
-			for bg := -1; bg <= 300 && !bad; bg += 5 {
-				nl++
-				if a, b := got.TColor(fg, bg), want.TColor(fg, bg); a != b {
-					r.Violate("lookup-sequence:tcolor", fmt.Sprintf("after looking up the derived -256color/-truecolor names, LookupTerminfo(%q).TColor(%d,%d) = %q; the registered entry gives %q (colours %d vs %d)", nm, fg, bg, a, b, got.Colors, want.Colors), map[string]any{"entry": nm})
-					bad = true
+		for ni, nm := range names {
+			if ei > 0 && r.Quick() && ni%3 != ei%3 {
+				continue
+			}
+			got, err := terminfo.LookupTerminfo(nm)
+			want := Pristine(nm)
+			if err != nil {
+				r.Violate("lookup-sequence:lost", fmt.Sprintf("LookupTerminfo(%q) fails after the derived names were looked up: %v", nm, err), nil)
+				continue
+			}
+			bad := false
+			for fg := -1; fg <= 300 && !bad; fg += 3 {
+				for bg := -1; bg <= 300 && !bad; bg += 5 {
+					nl++
+					if a, b := got.TColor(fg, bg), want.TColor(fg, bg); a != b {
+						r.Violate("lookup-sequence:tcolor", fmt.Sprintf("after looking up the derived -256color/-truecolor names, LookupTerminfo(%q) (environment %s=%q).TColor(%d,%d) = %q; the registered entry gives %q (colours %d vs %d)", nm, env[0], env[1], fg, bg, a, b, got.Colors, want.Colors), map[string]any{"entry": nm})
+						bad = true
+					}
 				}
 			}
-		}
-		for _, p := range [][2]int{{0, 0}, {7, 3}, {95, 96}, {250, 131}} {
-			if a, b := got.TGoto(p[0], p[1]), want.TGoto(p[0], p[1]); a != b && !bad {
-				r.Violate("lookup-sequence:tgoto", fmt.Sprintf("after looking up the derived names, LookupTerminfo(%q).TGoto(%d,%d) = %q; the registered entry gives %q", nm, p[0], p[1], a, b), nil)
-				bad = true
+			for _, p := range [][2]int{{0, 0}, {7, 3}, {95, 96}, {250, 131}} {
+				if a, b := got.TGoto(p[0], p[1]), want.TGoto(p[0], p[1]); a != b && !bad {
+					r.Violate("lookup-sequence:tgoto", fmt.Sprintf("after looking up the derived names, LookupTerminfo(%q).TGoto(%d,%d) = %q; the registered entry gives %q", nm, p[0], p[1], a, b), nil)
+					bad = true
+				}
 			}
 		}
 	}
